@@ -54,6 +54,9 @@ func zint(t fataler, b *big.Int) *num.Int {
 func fromBE(b []byte) *big.Int { return new(big.Int).SetBytes(b) }
 
 func short(b *big.Int) string {
+	if b.Sign() < 0 {
+		return "-" + short(new(big.Int).Neg(b))
+	}
 	s := b.Text(16)
 	if len(s) <= 40 {
 		return "0x" + s
@@ -254,7 +257,7 @@ func mkPlain(t *rapid.T, label string, key *pkey, m *big.Int) (*paillier.Plainte
 	}
 	if err != nil {
 		t.Fatalf("key %v: plaintext constructor %q rejected the in-range value %s (signed %s): %v",
-			key.ID, via, short(m), key.Ref.sym(m), err)
+			key.ID, via, short(m), short(key.Ref.sym(m)), err)
 	}
 	return pt, via
 }
